@@ -149,7 +149,7 @@ fn main() {
         t.sample(run.seed, s.iter().fold(1u64, |a, x| a * 29 + *x as u64), || json!({"text": bytes_json(&text)}));
     });
     let n2 = run.pick(7, 9);
-    run.bound(format!("S2: all {} sequences of <= {} entries over 7 kinds", seqs::count(S2.len(), n2), n2));
+    run.bound(format!("S2: all {} sequences of <= {} entries over 8 kinds", seqs::count(S2.len(), n2), n2));
     seqs::par_seqs(&run, "C15 S2", S2.len(), n2, 3, |_| false, |s, t| {
         let mut text = vec![];
         for i in s {
